@@ -96,7 +96,7 @@ pub fn eval(c: &RawCase) -> Outcome {
                     o.fail(
                         "accept",
                         format!("accept.{}.{}", ep, variant),
-                        format!("call {} ({}) violates no documented precondition but was rejected: {}", i, ep, &display[..display.len().min(160)]),
+                        format!("call {} ({}) violates no documented precondition but was rejected: {}", i, ep, clip(&display, 160)),
                     );
                     return o;
                 }
@@ -112,7 +112,7 @@ pub fn eval(c: &RawCase) -> Outcome {
                             o.fail(
                                 "names",
                                 format!("names.{}.{}", ep, variant),
-                                format!("call {} ({}) was rejected with {} ({}), but the preconditions it violates are {:?}", i, ep, variant, &display[..display.len().min(120)], v),
+                                format!("call {} ({}) was rejected with {} ({}), but the preconditions it violates are {:?}", i, ep, variant, clip(&display, 120), v),
                             );
                             return o;
                         }
